@@ -4,6 +4,7 @@ from __future__ import annotations
 import json
 import math
 import os
+import random
 import tempfile
 import warnings
 from concurrent.futures import ThreadPoolExecutor
@@ -98,11 +99,13 @@ def gen_case(rng, *, full_model=True, penalties=True, weights=True, two_groups=T
                         mc["cols"] = [[min(v, 1) for v in c] for c in mc["cols"][: len(mc["labels"])]]
                 glabs = rng.sample(["x", "y"], rng.choice([1, 2]))
                 d["gmcs"] = [{"scale": 1, "labels": glabs, "cols": [[rng.choice([0, 1, 1]) for _ in axis] for _ in glabs]}]
-                if rng.random() < 0.5:
+                # a local generator (derived from the case so far): the main stream of draws is the one earlier rounds were run with
+                lr = random.Random(sum(axis) * 31 + n_model * 7 + len(datasets) * 3 + len(glabs))
+                if lr.random() < 0.5:
                     # two global megacomplexes that share a label, with different scales (the megacomplexes of the model dimension keep
                     # scale 1, so the dataset sets global_megacomplex_scale only): the shared column is s1*c1 + s2*c2
-                    d["gmcs"][0]["scale"] = rng.choice([1, 2, 3])
-                    d["gmcs"].append({"scale": rng.choice([1, 2, 3]), "labels": [glabs[0]], "cols": [[rng.choice([0, 1, 1]) for _ in axis]]})
+                    d["gmcs"][0]["scale"] = lr.choice([1, 2, 3])
+                    d["gmcs"].append({"scale": lr.choice([1, 2, 3]), "labels": [glabs[0]], "cols": [[lr.choice([0, 1, 1]) for _ in axis]]})
                 d["scale"] = 1
                 group_has_global = True
             datasets.append(d)
